@@ -47,6 +47,7 @@ def cfgOp (st : St) : List String → Option St
                                     auth := setFlag st.l.auth name (kvGet rest "auth" ≠ "0") } }
   | ["poolreach", p, b] => some { st with l := { st.l with reach := setFlag st.l.reach p (b ≠ "0") } }
   | ["poolauth", p, b] => some { st with l := { st.l with auth := setFlag st.l.auth p (b ≠ "0") } }
+  | ["reportcb"] => some st
   | _ => none
 
 def evOp (l : Life) : List String → Option (Life × List Out)
@@ -55,6 +56,8 @@ def evOp (l : Life) : List String → Option (Life × List Out)
   | ["msubmit", id, job] =>
     let nonce := String.ofList (List.replicate (8 - id.length) '0') ++ id
     some (inSess l fun s => submit pow0 s id job "00000001" "64c25820" nonce "-" "s" (shareKey "00000001" "64c25820" nonce "-"))
+  -- a contract task longer than the history: the scheduler changes the destination at once, with the task's callback
+  | ["task", _id, p, _ms] => some (inSess l fun s => switchTo s p true)
   | ["minerclose"] => some (minerClose l)
   | ["shutdown"] => some (shutdown l)
   | ["advance", ms] => some (tick l ((parseInt ms) * 1000000))
